@@ -143,6 +143,11 @@ namespace msgpack {
 
         JSONCONS_VISITOR_RETURN_TYPE visit_begin_object(std::size_t length, semantic_tag, const ser_context&, std::error_code& ec) final
         {
+            if (JSONCONS_UNLIKELY(length > (std::numeric_limits<uint32_t>::max)()))
+            {
+                ec = msgpack_errc::too_many_items; // MessagePack has no container header wider than 32 bits
+                JSONCONS_VISITOR_RETURN;
+            }
             if (JSONCONS_UNLIKELY(++nesting_depth_ > max_nesting_depth_))
             {
                 ec = msgpack_errc::max_nesting_depth_exceeded;
@@ -202,6 +207,11 @@ namespace msgpack {
 
         JSONCONS_VISITOR_RETURN_TYPE visit_begin_array(std::size_t length, semantic_tag, const ser_context&, std::error_code& ec) final
         {
+            if (JSONCONS_UNLIKELY(length > (std::numeric_limits<uint32_t>::max)()))
+            {
+                ec = msgpack_errc::too_many_items; // MessagePack has no container header wider than 32 bits
+                JSONCONS_VISITOR_RETURN;
+            }
             if (JSONCONS_UNLIKELY(++nesting_depth_ > max_nesting_depth_))
             {
                 ec = msgpack_errc::max_nesting_depth_exceeded;
